@@ -547,7 +547,10 @@ int main(int argc, char **argv) {
       RC_FAIL(o.r.sig);
     }
   };
-  auto gen = rc::gen::scale((double)scale, rc::gen::container<std::vector<uint32_t>>(rc::gen::arbitrary<uint32_t>()));
+  // The scale factor is meant for the LENGTH of the tape only.  gen::scale also scales the size seen by the
+  // element generator, and arbitrary<uint32_t> degenerates when that size leaves 0..100 (most elements came out as
+  // the same all-ones value): the elements are generated at a fixed size of 100, i.e. uniformly over 32 bits.
+  auto gen = rc::gen::scale((double)scale, rc::gen::container<std::vector<uint32_t>>(rc::gen::resize(100, rc::gen::arbitrary<uint32_t>())));
   // rapidcheck prints its own report on stderr; ours goes to stdout
   bool ok = rc::check(std::string("property ") + prop->id + "/" + prop->variant,
                       [&]() { body(*gen); });
